@@ -647,7 +647,7 @@ pub fn spec() -> Spec<Case> {
     Spec {
         id: "C18",
         level: "exploration",
-        rule: "argument vectors from a grammar over git's global options (attached/detached values, values that are command names, meta options, unknown dash options, `--`), sub-commands (real, unknown, alias names), sub-command flags/pathspecs, and an alias table of 0-4 aliases (simple, quoted/escaped, recursive, cyclic, shell). Oracles: (1) parse->to_invocation_vec identity, or - only when a top-level help/version token is present - real git behaves identically (exit, stdout, stderr) on both vectors; (2) parser's sub-command == what git dispatches per GIT_TRACE; (3) resolve_alias_invocation == git's traced alias expansion; (4) sampled end-to-end argv recorded by a git stand-in behind the real wrapper. non-trivial = >=2 leading options incl. a valued one, an option value equal to a command name, or an alias; distinct by case hash".into(),
+        rule: "(alias values: a fixed pool plus values generated over the quoting forms git's alias splitter knows - single/double-quoted sections containing backslashes, the other quote character and blanks, backslash escapes outside quotes, empty quotes) argument vectors from a grammar over git's global options (attached/detached values, values that are command names, meta options, unknown dash options, `--`), sub-commands (real, unknown, alias names), sub-command flags/pathspecs, and an alias table of 0-4 aliases (simple, quoted/escaped, recursive, cyclic, shell). Oracles: (1) parse->to_invocation_vec identity, or - only when a top-level help/version token is present - real git behaves identically (exit, stdout, stderr) on both vectors; (2) parser's sub-command == what git dispatches per GIT_TRACE; (3) resolve_alias_invocation == git's traced alias expansion; (4) sampled end-to-end argv recorded by a git stand-in behind the real wrapper. non-trivial = >=2 leading options incl. a valued one, an option value equal to a command name, or an alias; distinct by case hash".into(),
         cases_quick: 12_000,
         cases_thorough: 200_000,
         shrink_iters: 600,
